@@ -173,10 +173,22 @@ class Run:
             def pairs():
                 cur = HandlerCollection.current.get()
                 return [] if cur is None else [(id(a), id(b)) for a, b in cur.handler_pairs]
+            if self.uni.gen is None and op.get("how", "next") != "next":
+                self.uni.gen = self.uni.mod.hgen(10 ** 6)
+                next(self.uni.gen)
             before_pairs = pairs()
             if self.uni.gen is None:
                 self.uni.gen = self.uni.mod.hgen(10 ** 6)
-            next(self.uni.gen)
+            how = op.get("how", "next")
+            if how == "next":
+                next(self.uni.gen)
+            elif how == "close":
+                self.uni.gen.close()
+                self.uni.gen = None
+            else:
+                self.uni.gen = None
+                import gc
+                gc.collect()
             out = {"context_same": pairs() == before_pairs}
         elif kind == "storm":
             # outside the model: a call (of other functions) under an overlay with a nested selector and a total
